@@ -1,6 +1,7 @@
 import Rangers.Model.Qn
 import Rangers.Generated.C16Facts
 import Rangers.Proofs.C16Qn
+import Rangers.Proofs.C16Vrf
 /-!
 Property C16, part 3: the quality number. `validateProve` is the function the driver
 runs (with the generated parameters); theorems hold for every parameter set with
@@ -43,6 +44,49 @@ theorem qn_range_partial (P : Params) (hmax : P.maxQN < 2 ^ 52) (thr : Nat) (pro
         obtain ⟨hpos, hle⟩ := accepted_ratio_bound _ s hvle hok
         unfold calQn at hqo
         exact calQnCore_range P hmax _ _ q (show 0 < max256 by decide) hpos hle hqo
+
+/-! ### the qualification rule after header transport -/
+
+/-- The quality number is a function of the PROOF, not of its byte form: `validateProve` on the
+    bytes read back from the header's big integer (leading zeros dropped) equals `validateProve`
+    on the proposer's 80-byte proof. Holds because the model (like the code) pads BEFORE it takes
+    the value ratio; the order is pinned by `C16Gen.validate_call_order`. -/
+theorem qn_survives_transport (P : Params) (thr : Nat) (pi : Bytes) (h w t : Nat)
+    (hlen : pi.length = Vrf.proveSize) :
+    validateProve P thr (Vrf.ofBig (Vrf.toBig pi)) h w t = validateProve P thr pi h w t := by
+  have h1 : Vrf.tryZeroPadding (Vrf.ofBig (Vrf.toBig pi)) = Vrf.tryZeroPadding pi := by
+    unfold Vrf.ofBig Vrf.toBig
+    rw [Rangers.Proofs.C16Bytes.natToBE_beToNat, Rangers.Proofs.C16Bytes.pad_strip pi hlen,
+      Rangers.Proofs.C16Bytes.pad_of_len_ge pi (by omega)]
+  unfold validateProve
+  rw [h1]
+
+/-- An honest header passes `verifyBlockVRF` after transport: if the proposer's proof verifies,
+    the proposer-side `validateProve` (on the full proof) says `(true, qn)` and the header carries
+    `TotalQN = qn + pre.TotalQN`, the verifier — who only has the big integer — accepts. -/
+theorem honest_header_passes_after_transport (P : Params) (thr : Nat) (pk pi msg : Bytes)
+    (h w t qn pre : Nat) (hlen : pi.length = Vrf.proveSize)
+    (hver : Vrf.verify pk pi msg = .ok true)
+    (hq : validateProve P thr pi h w t = .res true (.val qn)) :
+    verifyBlockVRF P thr pk (Vrf.toBig pi) msg h w t ((qn + pre) % two64) pre = .ok := by
+  have h1 : Vrf.verify pk (Vrf.ofBig (Vrf.toBig pi)) msg = .ok true := by
+    unfold Vrf.verify at hver ⊢
+    rw [Rangers.Proofs.C16Vrf.verifyWith_eq_parts] at hver ⊢
+    have : Vrf.tryZeroPadding (Vrf.ofBig (Vrf.toBig pi)) = Vrf.tryZeroPadding pi := by
+      unfold Vrf.ofBig Vrf.toBig
+      rw [Rangers.Proofs.C16Bytes.natToBE_beToNat, Rangers.Proofs.C16Bytes.pad_strip pi hlen,
+        Rangers.Proofs.C16Bytes.pad_of_len_ge pi (by omega)]
+    rw [this]; exact hver
+  unfold verifyBlockVRF
+  simp only [h1, qn_survives_transport P thr pi h w t hlen, hq]
+  simp
+
+/-- non-vacuity: an 80-byte proof starting with a zero byte that the rule accepts with a definite qn -/
+example : validateProve liveParams 0 (0 :: List.replicate 79 0x10) 0 0 10 = .res true (.val 1) ∧
+    (Vrf.ofBig (Vrf.toBig (0 :: List.replicate 79 0x10))).length = 79 := by
+  constructor
+  · decide +kernel
+  · unfold Vrf.ofBig Vrf.toBig; rw [Rangers.Proofs.C16Bytes.natToBE_beToNat]; decide
 
 /-- FULL STATEMENT (false of model and code): an accepted proof has `1 ≤ qn ≤ MaxQN`. -/
 def FullStatement_qn_range (P : Params) : Prop :=
